@@ -311,6 +311,8 @@ def eval_ode(case, ctx):
             ctx.case(cls="ode:reference-unusable")
             return
         scale = max(1.0, float(np.max(np.abs(ref[-1]))))
+        # rounding / reference floor: the 1e-13 reference loses accuracy linearly with the (possibly extended) span
+        floor_o = 1e-11 * scale * max(1.0, T / 3.0)
         integ = RungeKutta(order=p)
         errs = []
         N = 2
@@ -327,10 +329,10 @@ def eval_ode(case, ctx):
                 e = float("inf")
             if e <= 1e-2 * scale:
                 errs.append((N, e))
-            if e < 1e-11 * scale:
+            if e < floor_o:
                 break
             N *= 2
-        good = [(N, e) for N, e in errs if e >= 1e-11 * scale and N >= 8]
+        good = [(N, e) for N, e in errs if e >= 3 * floor_o and N >= 8]
         ratios = [math.log2(good[i][1] / good[i + 1][1]) for i in range(len(good) - 1) if good[i + 1][0] == 2 * good[i][0]]
         nt = ("ode", repr(case)) if len(ratios) >= 2 else None
         ctx.case(nontrivial=nt, cls=["ode:fixed%d" % p, "ode:" + case["kind"], "ode:ratios=%d" % min(len(ratios), 3)],
@@ -413,7 +415,14 @@ def eval_pulse(case, ctx):
     bound = tol * np.abs(ref.y[0]) + tol
     r_scipy = float(np.max(np.abs(sc.y[0] - ref.y[0]) / bound)) if sc.success else 1.0
     y0 = np.array([case["x0"], a, t0, w, k], float)
-    sol = AdaptiveRK(order=p, rtol=tol, atol=tol, max_step=ms).integrate(systems()["pulse"], y0, tv)
+    try:
+        sol = AdaptiveRK(order=p, rtol=tol, atol=tol, max_step=ms).integrate(systems()["pulse"], y0, tv)
+    except Exception as e:
+        # a smooth, well-posed problem (system at rest, forcing still negligible at the start) must be integrated
+        ctx.case(cls="pulse:raised:%s" % type(e).__name__)
+        ctx.fail("adaptive-integrator-raises:adaptive%d:%s:quiescent-start" % (p, type(e).__name__), case,
+                 "AdaptiveRK(order=%d).integrate raised %s: %s on y' = -k y + a exp(-((t-t0)/w)^2), y(0)=%r" % (p, type(e).__name__, str(e)[:100], case["x0"]))
+        return
     err = np.abs(np.asarray(sol.states)[:, 0] - ref.y[0])
     # judged only AFTER the pulse (t >= t0 + 5w): inside it the requested times fall into steps of the size of the
     # pulse and the (uncontrolled, 4th/7th-order) dense output dominates -- SciPy's identical interpolant shows the same
